@@ -60,7 +60,7 @@ PROPS = {
                       '(Round.panic only for an empty write buffer, never constructed) and the correspondence.',
     },
     'C09': {
-        'modules': ['C09', 'TieWrite', 'TieFrame'],
+        'modules': ['C09', 'TieWrite', 'TieFrame', 'TieHdr', 'TieMask'],
         'families': [('corpus:defects', 0, 0), ('ep:sizes', 400, 8000), ('ep:mixed', 800, 20000), ('ep:ping', 500, 10000), ('ep:maskpaths', 1, 1),
                      ('pure:hformat', 500, 20000)],
         'rule': 'all message kinds, payload sizes 0..70000 around the encoding boundaries, both roles, histories that trigger automatic pongs and '
@@ -90,7 +90,7 @@ PROPS = {
         'level_note': 'The first statement of pong_never_dropped was proved false (a user pong replaces the pending one) and corrected.',
     },
     'C02': {
-        'modules': ['C02', 'TieWrite', 'TieRead', 'TieRun', 'TieCodec', 'TieColl', 'TieInc'],
+        'modules': ['C02', 'TieWrite', 'TieRead', 'TieRun', 'TieCodec', 'TieColl', 'TieInc', 'TieHdr'],
         'families': [('ep:codec', 2500, 80000), ('ep:utf8', 500, 10000), ('ep:utf8cuts', 1, 1), ('ep:limits', 500, 10000)],
         'rule': 'well-formed frame sequences with arbitrary fragmentation and interleaved control frames, and the same with a single rule '
                 'violation injected (RSV, reserved opcodes, fragmented / oversized control, stray continuation, nested data frame, wrong '
@@ -276,7 +276,7 @@ PROPS = {
                       'through read is covered by the correspondence and the RFC-decoder monitor.',
     },
     'C18': {
-        'modules': ['C18', 'TieFrame', 'TieCodec', 'TieFsock'],
+        'modules': ['C18', 'TieFrame', 'TieCodec', 'TieFsock', 'TieHdr'],
         'families': [('fs', 500, 15000), ('pure:hparse', 1, 1), ('pure:hparseat', 1500, 60000), ('pure:hformat', 2000, 100000), ('pure:fformat', 300, 6000)],
         'exhaustive': True,
         'rule': 'all 65536 values of the first two header bytes with boundary extended lengths, masks and every truncation point '
@@ -292,7 +292,7 @@ PROPS = {
                       'differential run over all first-two-byte values plus an independent RFC header reader as monitor.',
     },
     'C19': {
-        'modules': ['C19', 'TieFrame', 'TieFsock', 'FsockProps'],
+        'modules': ['C19', 'TieFrame', 'TieFsock', 'FsockProps', 'TieMask'],
         'miri': 'mirimask',
         'families': [('ep:codec', 500, 10000), ('fs', 500, 15000), ('pure:mask', 4, 40), ('pure:fformat', 200, 4000), ('ep:maskpaths', 1, 1)],
         'rule': 'payload lengths 0..=67 x 8 alignments x keys sweeping every value of every key byte through the real '
@@ -300,8 +300,9 @@ PROPS = {
                 'buffer; server reads of masked frames / client writes at every (length, offset)',
         'assumptions': ['that the unsafe align_to_mut reinterpretation touches no neighbouring byte is memory behaviour: '
                         'checked with canaries on the real crate, not proved (partial)'],
-        'trusted_base': ['the model of apply_mask_fast32 takes the (prefix, words, suffix) split as a parameter; '
-                         'C19_fast_eq_spec holds for every split'],
+        'trusted_base': ['apply_mask / apply_mask_fallback / apply_mask_fast32 are machine-translated every run (mask2lean -> MaskGen.lean, '
+                         'Tie_mask_*); the answer of unsafe align_to_mut is a parameter (any split with pre + 4*words <= len); '
+                         'C19_fast_eq_spec and Tie_mask_applyMask hold for every split; little-endian target'],
         'level_text': 'Kernel-checked theorem that the word-wise fast path equals byte-wise XOR with key[i mod 4] for EVERY buffer, '
                       'key and every (prefix, words, suffix) split, plus involution and the in-place encoder leaving the buffer prefix '
                       'untouched; the real routine is compared with the specification at every length 0..67 x alignment with canaries.',
